@@ -147,6 +147,38 @@ def run_bounded(rep, contract_mod, hname, meta, seed=0):
     rep.bounded.append("%s: native sampling, %d random inputs from the declared ranges" % (hname, ev))
 
 
+def cross_check(rep, contract_mod, hname, meta, seed=0, n=None):
+    """thorough tier: run a symbolically discharged harness natively (CPython, real package) on random inputs.  A native
+    counterexample to a discharged obligation means the executor or an assumed library contract is wrong: engine error
+    (exit 3), never a VIOLATION and never silently ignored."""
+    import time
+    n = n or int(os.environ.get("PYVC_CROSSCHECK_N", "25"))
+    payload = dict(kind="pyvc-harness", contract=contract_mod, harness=hname, obligation_name="*", inputs={}, seed=seed,
+                   obligation_text="native cross-check of a discharged harness", solver_backend="native-sampling")
+    path = write_replay(rep.pid, "%s/crosscheck@%d" % (hname, os.getpid()), payload)
+    t0 = time.time()
+    rc, res = native(path, search=n, timeout=900)
+    dt = time.time() - t0
+    _rm(path)
+    clause = meta.get("clause", hname)
+    if rc == 1 and res.get("status") == "fails":
+        found = res.get("obligation") or "?"
+        oid = "%s/%s" % (hname, found)
+        known = any(o.oid == oid and o.status != DISCHARGED for o in rep.obligations)
+        if known:
+            return
+        payload.update(confirmed=True, native_result=res, inputs=res.get("inputs", {}), seed=res.get("seed", seed), obligation_name=found)
+        p2 = write_replay(rep.pid, oid + "@crosscheck", payload)
+        rep.engine_error("native cross-check contradicts the discharged obligation %s (inputs in %s): the executor or an assumed "
+                         "library contract is wrong" % (oid, p2))
+        return
+    ev = int(res.get("evaluated", 0))
+    if ev > 0:
+        rep.add(Obligation("%s/native-cross-check" % hname, clause, "every obligation of the harness also holds when the harness "
+                           "runs under CPython against the real package on %d random inputs" % ev, DISCHARGED, "native-sampling",
+                           dt, label="B", vcs=ev))
+
+
 WITNESS_SEARCH = int(os.environ.get("PYVC_WITNESS_SEARCH", "150"))
 
 
